@@ -6,14 +6,14 @@ namespace Hctl
 open Kripke
 
 section
-variable {E : Env} (hE : EnvOK E) (hG : GraphWF E.G) {K : SemCtx} (hK : CtxOK E K) {U0 : CSet}
-  (hKS : KeySem E K U0) (hKW : KeyWild E K U0) (hA : C12.GraphAsync E.G)
+variable {C : CharClass} {E : Env} (hE : EnvOK E) (hG : GraphWF E.G) {K : SemCtx} (hK : CtxOK E K) {U0 : CSet}
+  (hKS : KeySem C E K U0) (hKW : KeyWild C E K U0) (hA : C12.GraphAsync E.G)
 include hE hG hK hKS hKW hA
 
 theorem evalNode_sound :
-    ∀ t U ds ctx, GoodQ E K U0 t U ds → ctx.fvd = fvdOf ds → CacheOK E K U0 ctx →
+    ∀ t U ds ctx, GoodQ C E K U0 t U ds → ctx.fvd = fvdOf ds → CacheOK C E K U0 ctx →
       ∃ r ctx', Eval.evalNode E (Ops.steadyOf E U0) t U ctx = .ok (r, ctx') ∧
-        Sem E r U (sat E.G K t) ∧ CacheOK E K U0 ctx' ∧ ctx'.fvd = ctx.fvd := by
+        Sem E r U (sat E.G K t) ∧ CacheOK C E K U0 ctx' ∧ ctx'.fvd = ctx.fvd := by
   intro t
   induction t with
   | atom a =>
@@ -59,8 +59,9 @@ theorem evalNode_sound :
     intro U ds ctx hq hfvd hc
     rcases lookup_spec hE hG hK hKS hKW hq hfvd hc with ⟨r, ctx', hl, hs, hc', hf⟩ | ⟨save, key, ren, hl, hkey, hnw, hsave⟩
     · exact ⟨r, ctx', by unfold Eval.evalNode; rw [hl], hs, hc', hf⟩
-    · have hqc : GoodQ E K U0 c U ds :=
-        ⟨hq.wscoped, hq.named, hq.dk, hq.domsIn, hq.domsDs, hq.wildsIn, hq.labelled, hq.unit, hq.desc⟩
+    · have hqc : GoodQ C E K U0 c U ds :=
+        ⟨hq.wscoped, hq.named, hq.dk, hq.domsIn, hq.domsDs, hq.wildsIn, hq.labelled, hq.unit, hq.desc,
+          by have := hq.valid; simpa [Lex.TreeOK, PropNamesOK] using this⟩
       obtain ⟨cr, ctx1, hev, hsc, hc1, hf1⟩ := ih U ds ctx hqc hfvd hc
       have hs : Sem E (E.tab (Eval.evalUn E U (Ops.steadyOf E U0) o cr)) U (sat E.G K (.un o c)) :=
         Sem.tab hE (sem_evalUn hE hG K hq.unit o c hsc)
@@ -73,10 +74,12 @@ theorem evalNode_sound :
     intro U ds ctx hq hfvd hc
     rcases lookup_spec hE hG hK hKS hKW hq hfvd hc with ⟨r', ctx', hl, hs, hc', hf⟩ | ⟨save, key, ren, hl, hkey, hnw, hsave⟩
     · exact ⟨r', ctx', by unfold Eval.evalNode; rw [hl], hs, hc', hf⟩
-    · have hql : GoodQ E K U0 l U ds :=
-        ⟨hq.wscoped.1, hq.named.1, hq.dk, hq.domsIn.1, hq.domsDs, hq.wildsIn.1, hq.labelled.1, hq.unit, hq.desc⟩
-      have hqr : GoodQ E K U0 r U ds :=
-        ⟨hq.wscoped.2, hq.named.2, hq.dk, hq.domsIn.2, hq.domsDs, hq.wildsIn.2, hq.labelled.2, hq.unit, hq.desc⟩
+    · have hql : GoodQ C E K U0 l U ds :=
+        ⟨hq.wscoped.1, hq.named.1, hq.dk, hq.domsIn.1, hq.domsDs, hq.wildsIn.1, hq.labelled.1, hq.unit, hq.desc,
+          by have := hq.valid; simp only [Lex.TreeOK, PropNamesOK] at this; exact ⟨this.1.1, this.2.1⟩⟩
+      have hqr : GoodQ C E K U0 r U ds :=
+        ⟨hq.wscoped.2, hq.named.2, hq.dk, hq.domsIn.2, hq.domsDs, hq.wildsIn.2, hq.labelled.2, hq.unit, hq.desc,
+          by have := hq.valid; simp only [Lex.TreeOK, PropNamesOK] at this; exact ⟨this.1.2, this.2.2⟩⟩
       obtain ⟨lr, ctx1, hev1, hsl, hc1, hf1⟩ := ihl U ds ctx hql hfvd hc
       obtain ⟨rr, ctx2, hev2, hsr, hc2, hf2⟩ := ihr U ds ctx1 hqr (hf1.trans hfvd) hc1
       have hs : Sem E (E.tab (Eval.evalBin E U (Ops.steadyOf E U0) o lr rr)) U (sat E.G K (.bin o l r)) :=
@@ -133,8 +136,9 @@ theorem evalNode_sound :
               cases dom <;> simp only [DomsIn] at this
               · exact this
               · exact this.2
-            have hqc : GoodQ E K U0 c U ds :=
-              ⟨hw.2, hn.2, hq.dk, hdi, hq.domsDs, hq.wildsIn, hq.labelled, hq.unit, hq.desc⟩
+            have hqc : GoodQ C E K U0 c U ds :=
+              ⟨hw.2, hn.2, hq.dk, hdi, hq.domsDs, hq.wildsIn, hq.labelled, hq.unit, hq.desc,
+                by have := hq.valid; simp only [Lex.TreeOK, PropNamesOK] at this; exact ⟨this.1.2.2, this.2⟩⟩
             obtain ⟨cr, ctx1, hev, hsc, hc1, hf1⟩ := ih U ds ctx hqc hfvd hc
             have hk : ¬ (varId v ≥ E.G.k) := by have := hq.dk; have := hw.1; omega
             have hs : Sem E (E.tab (Ops.evalJump E U cr (varId v))) U (sat E.G K (.hyb .jump v dom c)) :=
@@ -159,9 +163,10 @@ theorem evalNode_sound :
             cases dom with
             | none =>
               have hdi : DomsIn K c := by have := hq.domsIn; simpa [DomsIn] using this
-              have hqc : GoodQ E K U0 c U (ds ++ [none]) := by
+              have hqc : GoodQ C E K U0 c U (ds ++ [none]) := by
                 refine ⟨by simpa using hwc, by simpa using hnc, by simp; omega, hdi, ?_, hq.wildsIn, hq.labelled,
-                  by simpa using hq.unit.weaken, unitDesc_snoc_none hq.desc⟩
+                  by simpa using hq.unit.weaken, unitDesc_snoc_none hq.desc,
+                  by have := hq.valid; simp only [Lex.TreeOK, PropNamesOK] at this; exact ⟨this.1.2.2, this.2⟩⟩
                 intro i l hil
                 by_cases hi : i < ds.length
                 · rw [getElem?_snoc_lt ds none i hi] at hil; exact hq.domsDs i l hil
@@ -173,7 +178,7 @@ theorem evalNode_sound :
                 ih U (ds ++ [none]) { ctx with fvd := domInsert v none ctx.fvd } hqc hins (hc.fvd_irrel _)
               have hs : Sem E (E.tab (Eval.hybridQuantifier E U U op (varId v) cr)) U (sat E.G K (.hyb op v none c)) :=
                 Sem.tab hE (sem_quantNoDom hE hG K hq.unit op hj v hvd hdk c hsc)
-              have hc2 : CacheOK E K U0 { ctx1 with fvd := domRemove v ctx1.fvd } := hc1.fvd_irrel _
+              have hc2 : CacheOK C E K U0 { ctx1 with fvd := domRemove v ctx1.fvd } := hc1.fvd_irrel _
               have := store_ok hE hG hK hKS hKW hq hkey hnw hsave hs hc2
               refine ⟨_, _, ?_, hs, this.1, ?_⟩
               · unfold Eval.evalNode
@@ -210,9 +215,10 @@ theorem evalNode_sound :
                   cases op <;> first | rfl | exact absurd rfl hj
                 · show domRemove v (domInsert v (some l) ctx.fvd) = ctx.fvd
                   rw [hins]; exact hrem
-              · have hqc : GoodQ E K U0 c (E.tab (U.inter (E.tab (Ops.validDomain E U dsl (varId v))))) (ds ++ [some l]) := by
+              · have hqc : GoodQ C E K U0 c (E.tab (U.inter (E.tab (Ops.validDomain E U dsl (varId v))))) (ds ++ [some l]) := by
                   refine ⟨by simpa using hwc, by simpa using hnc, by simp; omega, hdic, ?_, hq.wildsIn, hq.labelled,
-                    by simpa using unitOK_restricted hE hG hK hKS hKW hl' hq.unit hmem, unitDesc_snoc_some hE hl' hq.desc hmem⟩
+                    by simpa using unitOK_restricted hE hG hK hKS hKW hl' hq.unit hmem, unitDesc_snoc_some hE hl' hq.desc hmem,
+                    by have := hq.valid; simp only [Lex.TreeOK, PropNamesOK] at this; exact ⟨this.1.2.2, this.2⟩⟩
                   intro i l2 hil
                   by_cases hi : i < ds.length
                   · rw [getElem?_snoc_lt ds _ i hi] at hil; exact hq.domsDs i l2 hil
@@ -226,7 +232,7 @@ theorem evalNode_sound :
                     (E.tab (U.inter (E.tab (Ops.validDomain E U dsl (varId v))))) op (varId v) cr)) U
                     (sat E.G K (.hyb op v (some l) c)) :=
                   Sem.tab hE (sem_quantDom hE hG K hK hq.unit op hj v l hl' hvd hdk c hmem hsc)
-                have hc2 : CacheOK E K U0 { ctx1 with fvd := domRemove v ctx1.fvd } := hc1.fvd_irrel _
+                have hc2 : CacheOK C E K U0 { ctx1 with fvd := domRemove v ctx1.fvd } := hc1.fvd_irrel _
                 have := store_ok hE hG hK hKS hKW hq hkey hnw hsave hs hc2
                 refine ⟨_, _, ?_, hs, this.1, ?_⟩
                 · unfold Eval.evalNode
